@@ -551,3 +551,19 @@ M("c09-buffering-flushes", "C09", "R09.5", BS, "            self.write_buffer.ap
 M("c03-inplace-reference-list", "C03", "R03.8", WAL, "            newly_spent_outputs.append(output_reference)\n", "            newly_spent_outputs.append(output_reference)\n            coinstate.at_head.public_key_balances[SECP256k1PublicKey(public_key)].output_references.sort()\n")
 M("c08-header-version-not-restored", "C08", "R08.9", "skepticoin/datatypes.py", "    def __init__(self, summary: BlockSummary, pow_evidence: PowEvidence):\n        self.version = 0", "    def __init__(self, summary: BlockSummary, pow_evidence: PowEvidence, version: int = 0):\n        self.version = version")
 M("c12-broadcast-try-outside-loop", "C12", "R09.8", MGR, "        for peer in self.get_active_peers():\n            try:\n                # try/except b/c .send_message might try to set the selector for a just-closed sock to writing\n                peer.send_message(message)\n            except (ValueError, KeyError) as e:", "        for peer in self.get_active_peers():\n            try:\n                # try/except b/c .send_message might try to set the selector for a just-closed sock to writing\n                peer.send_message(message)\n            except (KeyError) as e:")
+
+# ----------------------------------------------------------------------------------------------- rules added after the third seed round
+M("c10-no-write-readiness", "C10", "R10.8", RP, "            self.local_peer.selector.modify(self.sock, selectors.EVENT_READ | selectors.EVENT_WRITE, data=self)", "            self.local_peer.selector.modify(self.sock, selectors.EVENT_READ, data=self)")
+M("c10-msg-id-from-zero", "C10", "R10.8", RP, "        self._next_msg_id += 1\n        return self._next_msg_id", "        msg_id = self._next_msg_id\n        self._next_msg_id += 1\n        return msg_id")
+M("c15-startup-gives-keys-back", "C15", "R15.8", "skepticoin/scripts/utils.py", "        wallet = Wallet.load(open(\"wallet.json\", \"r\"))\n", "        wallet = Wallet.load(open(\"wallet.json\", \"r\"))\n        for pk, note in list(wallet.public_key_annotations.items()):\n            if note == \"reserved for potentially mined block\":\n                wallet.restore_annotated_public_key(pk, note)\n")
+M("c18-skip-misses-checkpoints", "C18", "R18.8", NP, "IBD_VALIDATION_SKIP = 10000", "IBD_VALIDATION_SKIP = 10080")
+M("c15-balance-misprinted", "C15", "R15.7", "skepticoin/scripts/balance.py", "        wallet.get_balance(coinstate) / SASHIMI_PER_COIN, \"SKEPTI at h. %s,\" % coinstate.head().height,", "        wallet.get_balance(coinstate) // SASHIMI_PER_COIN, \"SKEPTI at h. %s,\" % coinstate.head().height,")
+M("c20-selector-cap-raised", "C20", "R20.9", LP, "    \"linux\": 512,", "    \"linux\": 4096,")
+M("c09-greeting-not-always-marked", "C09", "R09.10", RP, "        self.hello_received = True\n", "        if message.my_port != 0:\n            self.hello_received = True\n")
+M("c04-deep-fork-dropped", "C09", "R09.7", RP, "            try:\n                validate_block_by_itself(block, int(time()))", "            if block.height + 100 < coinstate_prior.head().height:\n                return\n\n            try:\n                validate_block_by_itself(block, int(time()))")
+M("c12-extra-reward-output-check", "C12", "RX.2", CONS, "    if len(transaction.inputs[0].signature.signature) > MAX_COINBASE_RANDOM_DATA_SIZE:\n        raise ValidateTransactionError(\"Random data > MAX_COINBASE_RANDOM_DATA_SIZE\")\n", "    if len(transaction.inputs[0].signature.signature) > MAX_COINBASE_RANDOM_DATA_SIZE:\n        raise ValidateTransactionError(\"Random data > MAX_COINBASE_RANDOM_DATA_SIZE\")\n\n    for output in transaction.outputs:\n        validate_sashimi_range(output.value)\n")
+M("c10-peer-port-range", "C10", "RX.2", MSG, "    def __init__(self, last_seen_at: int, ip_address: IPv6Address, port: int):\n", "    def __init__(self, last_seen_at: int, ip_address: IPv6Address, port: int):\n        if not (0 < port <= 0xffff):\n            raise ValueError('Peer port %d is out of range.' % port)\n")
+M("c13-validator-raises-base-class", "C13", "R13.7", CONS, "            raise ValidateTransactionError(\"input's output_reference does not exist as an unspent out\")", "            raise ValidationError(\"input's output_reference does not exist as an unspent out\")")
+M("c12-worker-hashes-wrong-height", "C12", "R12.5", "skepticoin/mining.py", "                summary_hash = construct_summary_hash(summary, current_height)", "                summary_hash = construct_summary_hash(summary, current_height - 1)")
+M("c12-nonce-stuck", "C12", "R12.5", "skepticoin/mining.py", "                nonce = (nonce + 1) % (1 << 32)", "                nonce = nonce % (1 << 32)")
+M("c19-greeting-foreign-nonce", "C19", "R19.9", RP, "                [SupportedVersion(0)], ipv4_mapped, port_if_known, my_ip_address, my_port, self.local_peer.nonce,", "                [SupportedVersion(0)], ipv4_mapped, port_if_known, my_ip_address, my_port, random.randrange(pow(2, 32)),")
